@@ -53,6 +53,45 @@ INT_TYS = ["int8", "int16", "int32", "int64", "int", "uint8", "uint16", "uint32"
 NAMED_UNDER = {"ZeroT": "struct", "ZeroP": "struct", "FoldT": "struct", "FoldObj": "struct", "RegT": "struct", "RegObj": "struct"}
 
 
+# types with user-defined unfolders (harness/gotype_user.go, SFGoType!ExpUser): field kinds of their struct
+USER_UNFOLD = {"UStr": ["string"], "UI64": ["int64"], "UPt": ["int64", "int64"], "UExp": ["int64", "int64"],
+               "UObj": ["string", "int64"], "UProc": ["int64", "int64"]}
+
+
+def user_stream(tid, rnd):
+    """A stream the user-defined unfolder of type tid is written for."""
+    def i64():
+        return int_event(rnd, rnd.choice(["int8", "int16", "int64", "uint8", "uint32", "int"]))
+    if tid == "UStr":
+        return [streams.ev("nil", "nil")] if rnd.random() < 0.1 else [streams.ev("str", rnd.choice(["str", "strref"]), list(rnd.choice(streams.STRS[:14])))]
+    if tid == "UI64":
+        return [i64()]
+    if tid in ("UPt", "UExp"):
+        return [streams.ev("arrS", "arrS", (), rnd.choice([2, -1]), "any"), i64(), i64(), streams.ev("arrE", "arrE")]
+    if tid == "UObj":
+        ms = [(b"k", [streams.ev("str", rnd.choice(["str", "strref"]), list(rnd.choice(streams.STRS[:14])))]), (b"n", [i64()])]
+        rnd.shuffle(ms)
+        out = [streams.ev("objS", "objS", (), rnd.choice([2, -1]), "any")]
+        for name, evs in ms:
+            out.append(streams.ev("key", rnd.choice(["key", "keyref"]), list(name)))
+            out += evs
+        return out + [streams.ev("objE", "objE")]
+    n = rnd.randrange(4)
+    return [streams.ev("arrS", "arrS", (), rnd.choice([n, -1]), "any")] + [i64() for _ in range(n)] + [streams.ev("arrE", "arrE")]
+
+
+def user_types():
+    """The user-unfolder types on their own and inside every kind of container."""
+    out = []
+    for tid in USER_UNFOLD:
+        N = dict(k="named", id=tid)
+        out += [N, dict(k="ptr", e=[N]), dict(k="slice", e=[N]), dict(k="map", e=[N]),
+                dict(k="struct", f=[dict(name="P", tname="", opts=[], t=dict(k="int")), dict(name="Alpha", tname="", opts=[], t=N),
+                                    dict(name="Q", tname="", opts=[], t=dict(k="string"))]),
+                dict(k="struct", f=[dict(name="Alpha", tname="nm", opts=[], t=dict(k="ptr", e=[N])), dict(name="Q", tname="", opts=[], t=dict(k="slice", e=[N]))])]
+    return out
+
+
 def zero_vd(T):
     k = T["k"]
     base = dict(k=k, ty="", v=[], i=[], s=[], nil=False, dyn=[], e=[], f=[], m=[])
@@ -66,6 +105,9 @@ def zero_vd(T):
         base["e"] = [zero_vd(T["e"][0]) for _ in range(T["n"])]
     elif k == "struct":
         base["f"] = [zero_vd(f["t"]) for f in T["f"]]
+    elif k == "named" and T["id"] in USER_UNFOLD:
+        base["k"] = "struct"
+        base["f"] = [zero_vd(dict(k=fk)) for fk in USER_UNFOLD[T["id"]]]
     elif k == "named":
         if T["id"] in NAMED_UNDER:
             base["k"] = "struct"
@@ -127,6 +169,8 @@ def stream_for(T, rnd, extras=True, depth=0, nulls=0.0):
     k = T["k"]
     if nulls and depth > 0 and rnd.random() < nulls:
         return [streams.ev("nil", "nil")]
+    if k == "named" and T["id"] in USER_UNFOLD:
+        return user_stream(T["id"], rnd)
     if k == "named":
         return any_value(rnd, 2)
     if k == "bool":
